@@ -559,6 +559,12 @@ def _replay(job):
                                         hist=hist[:dev[0] + 1], full_hist=hist, leaf=leaf, ctype=ctype))
             return out
         out['outcome'] = 'raised'
+        if tname in ('NameError', 'UnboundLocalError'):
+            # never a refusal of an unsupported operation: the library ran into its own undefined name
+            out['findings'].append(dict(sig='C05:internal-error:%s:%s:%s' % (hist[k]['op'], kind_name(exprs[k - 1]), tname), prop='C05', step=k,
+                                        what='rsome raised %s(%s) inside an operation the support matrix lists' % (tname, msg), where=where,
+                                        hist=hist[:k + 1], leaf=leaf, ctype=ctype))
+            return out
         # the operand class has no such method at all (raised at the call itself or in the rsome.math wrapper)
         nosuch = ((tname == 'AttributeError' and 'has no attribute' in msg) or (tname == 'TypeError' and 'not subscriptable' in msg)) \
             and (where == 'numpy/scipy' or '/rsome/math.py' in where)
